@@ -41,3 +41,26 @@ Print Assumptions C17_judge_sound.
 Example C17_nonvacuous :
   balanced_bf 3 3 [[1;1;0];[0;1;1];[1;0;1]] = false /\ balanced_bf 3 3 [[1;1;0];[0;1;1];[-1;0;1]] = true.
 Proof. split; vm_compute; reflexivity. Qed.
+
+(* ---------- every totally unimodular matrix is balanced (TuBalanced.v: Camion's parity lemma by induction over pivots), so
+   matrices certified totally unimodular (network matrices by their digraph, series-parallel matrices by the reduction model)
+   are balanced at every size and an accepted `balanced_cert` record says so ---------- *)
+From Cmr Require TuModel GraphModel TuNetModel BalancedCertModel BalancedCertProofs TuBalanced.
+Theorem C17_totally_unimodular_matrices_are_balanced : forall m n M,
+  wf_mat m n M = true -> tu_bf m n M = true -> balanced_bf m n M = true.
+Proof. exact TuBalanced.tu_balanced_wf. Qed.
+Print Assumptions C17_totally_unimodular_matrices_are_balanced.
+
+Theorem C17_no_violator_in_a_totally_unimodular_matrix : forall m n M rs cs,
+  tu_bf m n M = true -> check_unbalanced m n M rs cs = false.
+Proof. exact TuBalanced.tu_no_bad_cycle. Qed.
+Print Assumptions C17_no_violator_in_a_totally_unimodular_matrix.
+
+Theorem C17_certified_matrices_of_every_size : forall rec alg sp ws m n M rc v sub w rest,
+  BalancedCertModel.balanced_cert_input rec = Some ((alg, sp, ws, (m, n, M), rc, v, sub, w), rest) ->
+  TuNetModel.tu_certified m n M w = true ->
+  BalancedCertModel.judge_balanced_cert rec = 0 ->
+  (alg = 2 /\ rc <> 0) \/
+  (rc = 0 /\ balanced_bf m n M = true /\ v = 1 /\ sub = None).
+Proof. exact BalancedCertProofs.judge_balanced_cert_sound. Qed.
+Print Assumptions C17_certified_matrices_of_every_size.
